@@ -1714,7 +1714,8 @@ class Compiler:
 
         orelse = template("__token = None") + template(
             "SLOT(__stream, econtext.copy(), rcontext)",
-            SLOT=name)
+            SLOT=name) + \
+            template("econtext.update(rcontext)")
         test = ast.Compare(
             left=load(name),
             ops=[ast.Is()],
